@@ -31,6 +31,9 @@ def shift_value(v, d):
         x = au.map_value(x, f)
         return shift_cursors(x, d)
 
+    if isinstance(v, Sym) and v.name == "offset":
+        # a counter that *is* `offset` on the first round (`let mut i = offset; loop { … i += 1 }`): offset + 0
+        return mk_lin("offset", d, v.ty)
     return g(v)
 
 
@@ -457,7 +460,7 @@ class LabelWorld(OracleWorld):
                 return None
         for l in changed:
             if shift_value(prev.get(l), d) != cur[l]:
-                raise InductionFailure("loop at bb%d of %s: `%s` is not the previous round's value shifted by %+d (the scan does not visit consecutive positions uniformly)" % (target, fr.body.id, fr.body.local_name(l), d))
+                raise InductionFailure("loop at bb%d of %s: `%s` is not the previous round's value shifted by %+d (the scan does not visit consecutive positions uniformly) [was %r, is %r]" % (target, fr.body.id, fr.body.local_name(l), d, prev.get(l), cur[l]))
         # what the previous round knew about its character *and used* must also hold for this round's
         # character; otherwise the previous round was a special case: re-anchor on this arrival and go on
         special = None
